@@ -106,7 +106,7 @@ type Stage struct {
 	cacheTimes []time.Time
 
 	pathLock  sync.RWMutex
-	pathLocks map[string]*sync.RWMutex
+	pathLocks map[string]*pathLock
 	readyLock sync.RWMutex
 	cleanLock sync.RWMutex
 }
@@ -131,7 +131,7 @@ func New(
 	}
 	s.wait = make(map[string][]*finalFile)
 	s.cache = make(map[string]*finalFile)
-	s.pathLocks = make(map[string]*sync.RWMutex)
+	s.pathLocks = make(map[string]*pathLock)
 	s.lastIn = time.Now()
 	s.cleanInterval = time.Minute * 30
 	s.canReceive = true
@@ -146,26 +146,70 @@ func New(
 	return s
 }
 
-func (s *Stage) getPathLock(key string) *sync.RWMutex {
+// pathLock is the lock of one staged file.  It counts the requests that have
+// fetched it and not released it yet, so that its entry is never dropped from
+// the table while a request still holds or waits on it: a request arriving
+// later must get the SAME lock, not a fresh one.
+type pathLock struct {
+	sync.RWMutex
+	stage *Stage
+	key   string
+	users int  // guarded by stage.pathLock
+	drop  bool // guarded by stage.pathLock: remove the entry once unused
+}
+
+// Unlock releases the write lock and the caller's claim on the table entry.
+func (l *pathLock) Unlock() {
+	l.RWMutex.Unlock()
+	l.stage.releasePathLock(l)
+}
+
+// RUnlock releases the read lock and the caller's claim on the table entry.
+func (l *pathLock) RUnlock() {
+	l.RWMutex.RUnlock()
+	l.stage.releasePathLock(l)
+}
+
+// getPathLock returns the lock of a staged file; every call is followed by
+// exactly one Lock/Unlock or RLock/RUnlock pair of the caller.
+func (s *Stage) getPathLock(key string) *pathLock {
 	// s.logDebug("Getting path lock for:", key)
 	// defer s.logDebug("Got path lock for:", key)
 	s.pathLock.Lock()
 	defer s.pathLock.Unlock()
-	var m *sync.RWMutex
-	var exists bool
-	if m, exists = s.pathLocks[key]; !exists {
-		m = &sync.RWMutex{}
+	m, exists := s.pathLocks[key]
+	if !exists {
+		m = &pathLock{stage: s, key: key}
 		s.pathLocks[key] = m
 	}
+	m.users++
 	return m
 }
 
+func (s *Stage) releasePathLock(l *pathLock) {
+	s.pathLock.Lock()
+	defer s.pathLock.Unlock()
+	l.users--
+	if l.users <= 0 && l.drop && s.pathLocks[l.key] == l {
+		delete(s.pathLocks, l.key)
+	}
+}
+
+// delPathLock drops the lock entry of a file nothing is expected for anymore:
+// at once when no request uses it, otherwise as soon as the last one that does
+// has released it.
 func (s *Stage) delPathLock(key string) {
 	// s.logDebug("Deleting path lock for:", key)
 	// defer s.logDebug("Deleted path lock for:", key)
 	s.pathLock.Lock()
 	defer s.pathLock.Unlock()
-	delete(s.pathLocks, key)
+	if l, ok := s.pathLocks[key]; ok {
+		if l.users <= 0 {
+			delete(s.pathLocks, key)
+		} else {
+			l.drop = true
+		}
+	}
 	s.lastIn = time.Now()
 	s.logDebug("Write Locks:", len(s.pathLocks))
 }
@@ -197,7 +241,7 @@ func (s *Stage) pathToName(path, stripExt string) (name string) {
 // found in the form of a JSON-encoded byte array
 func (s *Stage) Scan(version string) (jsonBytes []byte, err error) {
 	var name string
-	var lock *sync.RWMutex
+	var lock *pathLock
 	var partials []*sts.Partial
 	err = filepath.Walk(s.rootDir,
 		func(path string, info os.FileInfo, err error) error {
